@@ -43,7 +43,7 @@ Blobs == {"empty_str", "empty_arr", "arr_number", "arr_null", "arr_obj", "garbag
           "badutf8", "nulstr", "lone_surrogate", "long_str"}
 Values == WrongTypes \cup Numbers \cup Blobs
 ValuesCore == {"missing", "null", "string", "array", "number", "int_max", "int_min", "int_2p53", "empty_obj", "garbage"}
-RefShapes == {"empty", "other_format", "unknown", "dup", "self", "cycle", "many", "tuple_short", "tuple_long", "tuple_badhash",
+RefShapes == {"empty", "other_format", "unknown", "dup", "self", "cycle", "many", "tuple_empty", "tuple_short", "tuple_long", "tuple_badhash",
               "tuple_nonstr", "elem_empty", "elem_sigil", "missing", "null", "string", "number", "object",
               "arr_number", "arr_null", "arr_obj"}
 KeyShapes == {"pk_short", "pk_len33", "pk_empty", "pk_badb64", "pk_number", "pk_missing"}
@@ -145,8 +145,9 @@ ParseVerdict(v, f1, f2) ==
             \/ f.path \in StringTyped /\ f.cls \in {"true", "number", "array", "empty_obj", "object"}
             \/ f.path = "top/state_key" /\ f.cls \in {"true", "number", "array", "empty_obj", "object"}
             \/ f.path \in {"top/depth", "top/origin_server_ts"}
-                 /\ f.cls \in {"true", "string", "array", "empty_obj", "object", "float", "int64_over", "bigint", "bigfloat",
+                 /\ f.cls \in {"true", "string", "array", "empty_obj", "object", "float", "bigint", "bigfloat",
                                "string_num", "string_sp", "string_big"}
+            \/ f.path = "top/depth" /\ f.cls = "int64_over"      \* depth is a signed 64 bit integer, the timestamp unsigned
             \/ f.kind = "refs" /\ f.cls \in {"string", "number", "object"}
             \* "auth events and prev events must not be nil": ID lists only; where room IDs have no domain
             \* the create event is an implied auth event, so the list is never nil
